@@ -103,6 +103,7 @@ type connection struct {
 	stateLock     sync.RWMutex
 	readHandler   ReadHandler
 	done          chan struct{}
+	doneOnce      sync.Once
 	connState     ConnState
 	closeDeadline time.Duration
 }
@@ -285,7 +286,9 @@ func (wsc *connection) runReadLoop(nextMsg chan connMsg) {
 
 		close(nextMsg)
 		wsc.unsetConnState(ConnStateListening)
-		close(wsc.done)
+		// a later Listen runs another read loop: done is closed by the first
+		// loop that ends, closing it again would panic
+		wsc.doneOnce.Do(func() { close(wsc.done) })
 	}()
 
 	msg := connMsg{}
